@@ -38,7 +38,10 @@ fn defer_impl<D: Store>(data: &mut D, host_mode: u8, op: Instruction, l: (Garnis
     let rr = if r.0 == GarnishDataType::Unit { "U".to_string() } else { render(data, r.1, 0) };
     let ll = if l.0 == GarnishDataType::Unit { "U".to_string() } else { render(data, l.1, 0) };
     let entry = format!("defer({:?},{:?}:{},{:?}:{})", op, l.0, ll, r.0, rr);
-    if host_mode == 1 {
+    if host_mode == 2 && matches!(op, Instruction::Subtract | Instruction::Opposite) {
+        // a host whose handler itself fails on some operations: the step returns its error, later offers must still reach it
+        (entry, Err(DataError::from("host handler failed".to_string())))
+    } else if host_mode == 1 || host_mode == 2 {
         let res = data.add_number(SimpleNumber::Integer(777)).and_then(|a| data.push_register(a)).map(|_| true);
         (entry, res)
     } else {
